@@ -85,10 +85,15 @@ def rand_prim(rng, o, allow_occ=True):
             if rng.random() < .5:
                 f[rng.choice(('le', 'lt'))] = a + rng.randint(2, 40)
         elif kind == 'Decimal':
-            if rng.random() < .5:
-                f['ge'] = str(D(rng.randint(-100, 100)) / 4)
-            if rng.random() < .5:
-                f['le'] = str(D(rng.randint(100, 400)) / 4)
+            if getattr(o, 'digits', False) and rng.random() < .4:
+                # Decimal(total_digits, fraction_digits): xs:totalDigits / xs:fractionDigits
+                f['total_digits'] = rng.randint(1, 9)
+                f['fraction_digits'] = rng.choice((0, f['total_digits'] // 2, f['total_digits']))
+            else:
+                if rng.random() < .5:
+                    f['ge'] = str(D(rng.randint(-100, 100)) / 4)
+                if rng.random() < .5:
+                    f['le'] = str(D(rng.randint(100, 400)) / 4)
         elif kind == 'Unicode':
             r = rng.random()
             if r < .4:
@@ -145,7 +150,11 @@ def rand_tspec(rng, o, types, depth, complex_ok=True):
             inner.pop(k, None)
         if 'array' in inner or 'seq' in inner:
             inner = rand_prim(rng, o, allow_occ=False)
-        return {'seq': inner, 'max': rng.choice((2, 3, 5, 'unbounded'))}
+        t_ = {'seq': inner, 'max': rng.choice((2, 3, 5, 'unbounded'))}
+        if getattr(o, 'seq_min', False) and rng.random() < .4:
+            # a repeated member that has to occur at least once, twice or three times
+            t_['min_occurs'] = rng.randint(1, 3 if t_['max'] == 'unbounded' else min(3, t_['max']))
+        return t_
     return rand_prim(rng, o)
 
 
@@ -319,7 +328,7 @@ class Built(object):
             cls = ByteArray if kind == 'ByteArray' else getattr(P, kind)
             f = dict(t.get('facets') or {})
             if kind == 'Decimal':
-                f = {k: D(v) for k, v in f.items()}
+                f = {k: (v if k in ('total_digits', 'fraction_digits') else D(v)) for k, v in f.items()}
             elif kind in ('DateTime', 'Date', 'Time', 'Double'):
                 f = {k: facet_native(kind, v) if k in ('ge', 'gt', 'le', 'lt') else v for k, v in f.items()}
             f.update(kw)
@@ -337,7 +346,7 @@ class Built(object):
         if 'seq' in t:
             inner = self.spyne_type(t['seq'])
             mx = t['max']
-            return inner.customize(max_occurs=decimal.Decimal('inf') if mx == 'unbounded' else mx, **({'sub_name': sub_name} if sub_name else {}))
+            return inner.customize(max_occurs=decimal.Decimal('inf') if mx == 'unbounded' else mx, **kw)
         if 'attr' in t:
             return XmlAttribute(self.spyne_type(t['attr']))
         if 'xmldata' in t:
@@ -603,6 +612,12 @@ def gen_prim_value(rng, kind, facets, alphabet='xml'):
     if kind == 'Decimal':
         lo = D(f['ge']) if 'ge' in f else None
         hi = D(f['le']) if 'le' in f else None
+        if 'total_digits' in f:
+            td, fd = f['total_digits'], f['fraction_digits']
+            unit, top = D(1).scaleb(-fd), D(10) ** (td - fd) - D(1).scaleb(-fd)
+            cands = [D(0), unit, -unit, top, -top, D(rng.randint(-(10 ** td - 1), 10 ** td - 1)).scaleb(-fd),
+                     D(rng.randint(-(10 ** td - 1), 10 ** td - 1)).scaleb(-fd)]
+            return rng.choice(cands)
         cands = [D('0'), D('1.5'), D('-0.25'), D('12345678901234567890.0123456789'), D('1E+2'), D('1E-7'), D('2.8E+10'),
                  D(rng.randint(-10 ** 12, 10 ** 12)).scaleb(rng.randint(-8, 3)), D('0.10'), D(10) ** 30]
         if lo is not None:
@@ -670,6 +685,8 @@ def gen_value(rng, ir, t, depth=3, top=False, alphabet='xml', subclass_ok=False)
         top = True      # the text content of a simpleContent type cannot be absent unless it is a string
     if 'attr' in t and t['attr'].get('min_occurs', 0) >= 1:
         top = True      # a required attribute
+    if 'seq' in t and t.get('min_occurs', 0) >= 2:
+        top = True      # "no value" is written as one nil element, which is fewer than the member has to occur
     req_attr_ = 'ref' in t and any('attr' in ft and ft['attr'].get('min_occurs', 0) >= 1 for _, ft in all_fields(ir, t['ref']))
     if req_attr_:
         top = True      # XSD wants the required attributes even on a nilled element: "no value" has no valid spelling for such a type
@@ -725,11 +742,14 @@ def gen_value(rng, ir, t, depth=3, top=False, alphabet='xml', subclass_ok=False)
         return out
     if 'seq' in t:
         mx = 5 if t['max'] == 'unbounded' else t['max']
-        n = rng.choice([k for k in (0, 1, 2, mx) if t.get('min_occurs', 0) <= k <= mx])
+        mn_ = t.get('min_occurs', 0)
+        n = rng.choice([k for k in (0, 1, 2, 3, mx) if mn_ <= k <= mx])
         out = []
         for _ in range(n):
             v = gen_value(rng, ir, t['seq'], depth - 1, top=True, alphabet=alphabet, subclass_ok=subclass_ok)
             if v is None:
+                if len(out) < mn_:
+                    return None if mn_ == 0 else (out + [out[0]] * (mn_ - len(out)) if out else None)
                 break
             out.append(v)
         if out and 'ref' in t['seq'] and len(out) < mx and rng.random() < .25:
